@@ -238,6 +238,20 @@ def cookieLoad (decrypt : Bytes → Res Bytes) (now : Int) (cookie : Bytes) : Lo
           if Gen.timeSize > tmp.length then ⟨.ub, false⟩ else     -- substr throws
           ⟨.ok (tmp.drop Gen.timeSize, timeout), false⟩
 
+/-! ### the three back-ends as used by the theorems -/
+
+/-- `session_cookies(hmac_cipher)`: save / load -/
+def hmacSave (M : MacAlg) (key : Bytes) (timeout : Int) (data : Bytes) : Res Bytes :=
+  cookieSave (fun p => .ok (hmacEncrypt M key p)) false timeout data
+def hmacLoad (M : MacAlg) (key : Bytes) (now : Int) (cookie : Bytes) : LoadOut :=
+  cookieLoad (hmacDecrypt M key) now cookie
+
+/-- `session_cookies(aes_cipher)` with the CBC object in IV state `st`: save / load -/
+def aesSave (C : CbcAlg) (M : MacAlg) (ckey mkey : Bytes) (st : AesSt) (timeout : Int) (data : Bytes) : Res Bytes :=
+  cookieSave (fun p => (aesEncrypt C M ckey mkey st p).1) false timeout data
+def aesLoadCookie (C : CbcAlg) (M : MacAlg) (ckey mkey : Bytes) (st : AesSt) (now : Int) (cookie : Bytes) : LoadOut :=
+  cookieLoad (fun c => (aesDecrypt C M ckey mkey st c).1) now cookie
+
 /-! ## configuration -/
 
 inductive CfgErr where
